@@ -152,14 +152,25 @@ def explore(res, rng, n):
                 res.disagreements.append({'what': 'cycleCountingAggregation off grid', 'input': rows, 'bin': b, 'impl': str(e)})
     # ---- aggregation with decimal bin sizes (0.1, 0.2, 0.3, 0.05: binSize * k is not binSize * (k-1) + binSize in binary64):
     # distinct ascending centres that are multiples of the bin size, every value within half a bin of its centre, total conserved
-    for _ in range(max(30, n // 20)):
-        bd = rng.choice([0.1, 0.2, 0.3, 0.05, 0.025, 0.7])
-        vals = [round(rng.uniform(0, 40) * bd, rng.choice([2, 3])) for _ in range(rng.choice([2, 3, 5, 8, 12]))]
+    # … also bin sizes with more decimals than globalConfig.atol has digits (0.125 or 0.004 under atol = 2; 2.5e-9 under the default): the
+    # bin size is the caller's, the configured digits concern the cycle counters
+    from ffpack.config import globalConfig
+    for it in range(max(40, n // 15)):
+        bd = rng.choice([0.1, 0.2, 0.3, 0.05, 0.025, 0.7, 0.125, 0.004, 0.0625, 2.5e-9, 1e-10])
+        vals = [float('%.*g' % (rng.choice([3, 4]), rng.uniform(0, 40) * bd)) for _ in range(rng.choice([2, 3, 5, 8, 12]))]
         tab = [[v, float(rng.choice([1, 2, 0.5]))] for v in vals]
-        out = call(utils.cycleCountingAggregation, [list(r) for r in tab], bd)
+        digits = rng.choice([0, 1, 2, 3]) if it % 3 == 0 else None
+        old_cfg = (globalConfig.atol, globalConfig.rtol)
+        try:
+            if digits is not None:
+                globalConfig.atol = digits
+                res.stat('agg_under_changed_global_config')
+            out = call(utils.cycleCountingAggregation, [list(r) for r in tab], bd)
+        finally:
+            globalConfig.atol, globalConfig.rtol = old_cfg
         res.evaluations += 1
-        res.stat('agg_decimal_bin_size')
-        case = {'rows': tab, 'bin': bd}
+        res.stat('agg_decimal_bin_size' if bd > 1e-6 else 'agg_tiny_bin_size')
+        case = {'rows': tab, 'bin': bd, 'globalConfig.atol': digits}
         if isinstance(out, str):
             res.failures.append({'signature': f'C19:cycleCountingAggregation:decimal:raised:{bd}', 'clause': 'valid table raised ' + out, 'api': 'cycleCountingAggregation', 'input': case})
             continue
@@ -168,7 +179,7 @@ def explore(res, rng, n):
         bad = []
         if idxs != sorted(set(idxs)):
             bad.append('keys-sorted-distinct')
-        if any(abs(k - i * bd) > 1e-9 * max(1.0, abs(k)) for (k, _), i in zip(out, idxs)):
+        if any(abs(k - i * bd) > 1e-9 * max(bd, abs(k)) for (k, _), i in zip(out, idxs)):
             bad.append('keys-multiples')
         if abs(sum(c for _, c in out) - sum(c for _, c in tab)) > 1e-9:
             bad.append('total')
@@ -178,7 +189,7 @@ def explore(res, rng, n):
             i = int(q)
             # nearest centre, ties downwards; values within 1e-9 of a tie may go either way
             cand = [i, i + 1]
-            near = [j for j in cand if abs(v - j * bd) <= bd / 2 + 1e-9]
+            near = [j for j in cand if abs(v - j * bd) <= bd / 2 * (1 + 1e-9)]
             if not any(j in idxs for j in near):
                 bad.append('half-bin')
         if bad:
